@@ -251,7 +251,7 @@ Proof.
   intros Ht Hok (pre & n & -> & Hne).
   apply Forall_app in Ht as [Ht _]. apply Forall_app in Hok as [Hok _].
   induction pre as [|[k d i|c d i] pre IH]; cbn [app rl_stream].
-  - reflexivity.
+  - cbn. auto.
   - inversion Ht; subst. inversion Hok; subst. inversion Hne; subst.
     destruct (tkind_eqb k TkEof) eqn:Hk.
     + apply tkind_eqb_eq in Hk. subst k. cbn in *. contradiction.
@@ -268,7 +268,7 @@ Qed.
 Lemma rl_stream_tokens items : rl_stream items -> Forall rl_is_tok items.
 Proof.
   induction items as [|[k d i|c d i] r IH]; cbn [rl_stream]; try contradiction. intros H. constructor; [exact I|].
-  destruct (tkind_eqb k TkEof); [subst r; constructor|apply IH; tauto].
+  destruct (tkind_eqb k TkEof); [destruct H as [-> _]; constructor|apply IH; tauto].
 Qed.
 Lemma rl_significant_tokens items ts : rg_significant items = Some ts -> Forall rl_is_tok items.
 Proof.
